@@ -1,19 +1,30 @@
 """Runtime half of property C17 (ownership / lifetime): random API histories through harness/api_life.c.
 
-Used by tools/checks/c17.py:   c17life.run_life(cx)   and   c17life.classify(component, what, case).
+Used by tools/checks/c17.py:   c17life.run_life(cx)   and   c17life.classify(component, what, case);  c17life.FINDINGS lists the
+ids this module recognises (entries in findings.d/life.json).
 
-Every request line is one history executed in a fresh context (harness forks one child per history).  The laws are
-evaluated on the harness reply: dictionary (records, sum of refcounts) back at the baseline once all trees are freed,
-no "not freed from the dictionary" warning at ly_ctx_destroy, no LeakSanitizer report, a failed schema load leaves the
-dictionary unchanged, a failing call leaves its output NULL, node links intact after every op.  Sanitizer aborts are
-reported by cx.run_impl itself.
+Every request line is one history executed in a fresh context (the harness forks one child per history).  The laws are
+evaluated on the harness reply: dictionary (records, sum of refcounts) back at the baseline once all trees are freed, also at
+every intermediate all-freed point; no "not freed from the dictionary" warning at ly_ctx_destroy; no LeakSanitizer report
+(run when the byte balance of the heap is off, and for a forced sample); a FAILED schema load leaves the dictionary unchanged;
+a failing call leaves its output NULL; node links intact after every op.  Sanitizer aborts come back as crashes of the
+history's line (reported with the innermost frames in one canonical `VERIF ERROR:` line, which classify() reads).
 
-The schema knowledge of the generator is parsed from the harness' own built-in YANG text (`life schema <n>`), so the
-two cannot drift apart."""
+The schema knowledge of the generator is parsed from the harness' own built-in YANG text (`life schema <n>`), so the two cannot
+drift apart.  Streams: main; f19 (lyd_change_term on leaf-list instances / list keys); f60 (lyd_new_path UPDATE on any nodes);
+multierr (LYD_VALIDATE_MULTI_ERROR parses, F62); lrlink (LY_CTX_LEAFREF_LINKING, F63); opaq (opaque nodes: LYD_PARSE_OPAQ,
+lyd_new_opaq, attributes, NETCONF envelopes - kept away from merge/diff); subval (validated subtree parses, F68).
+Left to other properties on purpose (see comments at the generators): XPath string casts / deref() typing / preceding-sibling,
+merge and diff of trees with opaque nodes, structural edits of list keys, LYB-format values with undefined bits.
+Not done: allocation-failure enumeration (--wrap=malloc, F26).
+
+Development knobs: VERIF_LIFE_N (number of generated histories), VERIF_LIFE_WORKERS, harness env VERIF_LIFE_DEBUG=1|2."""
 import base64, concurrent.futures, json, os, re
 from vlib.proto import hexs, unhex
 
 HARNESS = "api_life"
+# findings this module knows how to recognise (entries in findings.d/life.json)
+FINDINGS = ["F19", "F21", "F60", "F61", "F62", "F63", "F64", "F65", "F66", "F67", "F68", "F69", "F70", "F71", "F72", "F73"]
 # a leak report is symbolized by an external process per frame batch: keep it short
 ENV = {"LSAN_OPTIONS": "exitcode=96:max_leaks=2"}
 NSLOT = 6
@@ -1417,7 +1428,8 @@ class HistGen:
         good = [p, plain, plain + "/*", "/" + plain.split("/")[1] + "//*", "count(%s) > 1" % plain, "%s[1]" % plain, "%s[last()]" % plain, "//" + sn.name,
                 "%s | %s" % (plain, "/" + plain.split("/")[1]), "..", ".", "*", "%s/.." % plain, "boolean(%s)" % plain, "current()/..", "descendant-or-self::node()",
                 "%s/ancestor::*" % plain, "%s/following-sibling::*" % plain, "%s[position() mod 2 = 1]" % plain, "not(%s)" % plain, "count(%s/*) + 1" % plain,
-                "%s/preceding-sibling::*[1]" % plain, "/*", "self::node()", "true() and %s" % plain, "(%s)[2]" % plain]
+"/*", "self::node()", "true() and %s" % plain, "(%s)[2]" % plain]
+        # (`preceding-sibling::*[1]` from a nested context node: NULL element in get_node_pos()/set_sort(), xpath.c:1500 - XPath matter)
         # node-set -> string casts (`. = 'a'`, string(), sum(), re-match()) and deref() of other than leafref / instance-identifier leaves are
         # left to the XPath property (UB in cast_string_recursive with empty values; deref() reads the value union as a path): not ownership matters
         if sn.kind in ("leaf", "leaf-list") and self.values.base(sn) in ("leafref", "instance-identifier"):
@@ -1630,12 +1642,30 @@ def seed_f64():
 
 def seed_f68():
     """lyd_parse_data() with a parent and validation: the first parsed child (empty container of another case) is auto-deleted"""
-    return 2, 4, [O("np", 2, 0, "/lfd:r/m1", "x"), O("pinp", 2, "/lfd:r", 0, P_STRICT, V_PRESENT, '<m2 xmlns="urn:lfd"></m2><kb xmlns="urn:lfd"><k>false</k></kb>')]
+    return 2, 4, [O("np", 2, 0, "/lfd:r/ki[k='lfd:k2']", None), O("pinp", 2, "/lfd:r", 0, P_STRICT, V_PRESENT, '<m2 xmlns="urn:lfd"></m2>')]
 
 
 def seed_f70():
     """LYB parse without LYD_PARSE_OPAQ of data that hold an opaque node with XML prefix data"""
     return 0, FORCE_LSAN | 4, [O("no", 2, None, "lfa", "c", "a&b", "pfx", 1), O("rt", 2, 3, 2, 2, P_ONLY, 0)]
+
+
+def seed_f72():
+    """lyd_insert_sibling() of a first top-level sibling with followers (all are moved) into siblings that hold an instance of the same list"""
+    return 0, FORCE_LSAN | 4, [O("px", 2, 0, P_ONLY, 0, '<top xmlns="urn:lfa">x</top><tli xmlns="urn:lfa"><k>b</k></tli>'),
+                               O("px", 5, 0, P_ONLY, 0, '<c xmlns="urn:lfa"><a>q</a></c><tli xmlns="urn:lfa"><k>x</k></tli>'), O("is", 5, "/lfa:tli[k='x']", 2, "/lfa:top", 2)]
+
+
+def seed_f72b():
+    return 0, FORCE_LSAN | 4, [O("px", 2, 0, P_ONLY, 0, '<top xmlns="urn:lfa">x</top><tli xmlns="urn:lfa"><k>b</k><v>a</v></tli><tli xmlns="urn:lfa"><k>x</k><v>on</v></tli>'),
+                               O("px", 5, 0, P_ONLY, 0, '<c xmlns="urn:lfa"><li><k>a</k></li></c><tli xmlns="urn:lfa"><k>b</k><v>a</v></tli><tli xmlns="urn:lfa"><k>x</k><v>on</v></tli>'),
+                               O("is", 5, "/lfa:tli[k='x']", 2, "/lfa:top", 2)]
+
+
+def seed_f73():
+    """lyd_diff_apply_all() with a diff that creates a user-ordered leaf-list instance but lacks the yang:value metadata"""
+    return 1, FORCE_LSAN | 4, [O("px", 0, 0, P_ONLY, 0, '<dns xmlns="urn:lfb">abc</dns>'), O("nm", 0, "/lfb:dns[.='abc']", "yang", "operation", "create", 0),
+                               O("px", 2, 0, P_ONLY, 0, '<dns xmlns="urn:lfb">x</dns>'), O("da", 2, 0)]
 
 
 def seed_f65():
@@ -1769,10 +1799,11 @@ def classify(component, what, case):
         err = case.get("stderr", "")
         m = re.search(r"VERIF ERROR: AddressSanitizer: (\S+) frames=(\S*)(?: freedby=(\S*))?", err)
         if not m:
-            u = re.search(r"runtime error: ([^\n]*)\n(?:[^\n]*\n){0,3}?\s*#0 0x[0-9a-f]+ in (\S+)", err)
+            u = re.search(r"VERIF ERROR: UBSan: (\S+) frames=(\S*)", err)
             if u:
+                msg, fr = u.group(1).replace("_", " "), u.group(2).split(",")
                 for fid, fn, frag, cond in UB_SIGNATURES:
-                    if u.group(2) == fn and frag in u.group(1) and (cond is None or cond(line)):
+                    if fr and fr[0] == fn and frag in msg and (cond is None or cond(line)):
                         return fid
             return None
         kind, frames, freedby = m.group(1), m.group(2).split(","), (m.group(3) or "").split(",")
@@ -1786,9 +1817,11 @@ def classify(component, what, case):
         if kind == "heap-use-after-free" and _has_multierr_parse(line) and "lyd_validate_unres" in frames and \
                 any(f.startswith(("lydxml_", "lydjson_", "lyd_parse")) for f in freedby):
             return "F62"
+        if kind == "heap-buffer-overflow" and "lyd_diff_userord_attrs" in frames[:2]:
+            return "F67"
         if kind == "heap-use-after-free" and (_ctxopts(line) & 0x400) and any(f.startswith("lyd_free_leafref") for f in frames[:3]):
             return "F63"
-        if kind == "heap-use-after-free" and _has_validating_subparse(line) and "lyd_validate" in frames[:3] and "lyd_parse" in frames and \
+        if kind == "heap-use-after-free" and _has_validating_subparse(line) and "lyd_parse" in frames[:8] and \
                 any(f.startswith("lyd_validate_autodel") for f in freedby):
             return "F68"
         return None
@@ -1799,11 +1832,21 @@ def classify(component, what, case):
     law = law.group(1) if law else ("sfail" if what.startswith("failed schema load") else "")
     if _only_failed_yin_witness(line) and law in ("sfail", "warn", "leak"):
         return "F21"
+    sf = re.search(r"sfail=(\S+)", rep)
+    sf = [int(x) for x in sf.group(1).split(",")] if sf and sf.group(1) != "-" else []
+    if sf and law in ("sfail", "warn"):
+        ops = decode_ops(line)
+        yin = lambda o: (o[0] == "ymod" and o[2][0] == "1") or (o[0] == "yinself" and o[2][1] == "1")
+        if all(i < len(ops) and yin(ops[i]) for i in sf) and re.search(r"drec=0 dref=0 mid=0 ", rep):
+            # every dictionary change of the history happened in a failed YIN parse
+            return "F71"
     if law == "eint" and _has_f19_op(line):
         # second face of F19: the double insertion / the removal of the stale record fails inside the hash table code
         return "F19"
     if law in ("integ", "leak", "drec", "dref", "warn") and _ops_with(line, ("is",), lambda n, r: len(r) > 4 and r[4] == "1"):
         return "F61"
+    if law in ("integ", "leak", "drec", "dref", "warn") and _ops_with(line, ("is", "ic"), lambda n, r: len(r) > 4 and r[4] == "2"):
+        return "F72"
     if law in ("drec", "dref", "mid", "warn", "leak") and _has_multierr_parse(line) and \
             (law != "leak" or leakat.startswith(("lyd_create_", "lyd_parser_", "lydxml_", "lydjson_", "lyd_new_implicit", "ly_set_", "-"))):
         return "F62"
@@ -1814,6 +1857,11 @@ def classify(component, what, case):
         return "F65"
     if law == "leak" and _has_lyb_parse_without_opaq(line) and "lyb_parse_prefix_data" in leakat:
         return "F70"
+    if law in ("leak", "drec", "dref", "warn", "mid") and leakat.startswith("lyd_dup_r<lyd_dup<lyd_diff_apply_r") and _ops_with(line, ("da",), lambda n, r: True):
+        rcs = re.search(r"rc=(\S+)", rep)
+        rcs = rcs.group(1).split(",") if rcs else []
+        if any(o[0] == "da" and i < len(rcs) and rcs[i] not in ("0", "-1") for i, o in enumerate(decode_ops(line))):
+            return "F73"
     return None
 
 
@@ -1823,8 +1871,7 @@ LAWS = [("drec", "dictionary records differ from the baseline after all trees we
         ("warn", "dictionary warning at ly_ctx_destroy (string not freed)"),
         ("leak", "memory leak reported by LeakSanitizer"),
         ("onn", "a failing call left a non-NULL output"),
-        ("integ", "node links broken after an operation (integrity walk)"),
-        ("eint", "internal error reported by the library")]
+        ("integ", "node links broken after an operation (integrity walk)")]
 
 
 def evaluate(cx, line, rep, kinds=None):
@@ -1844,6 +1891,9 @@ def evaluate(cx, line, rep, kinds=None):
         if d.get(key, "0") not in ("0", "-"):
             clean = False
             cx.fail("life", "%s [%s=%s]" % (text, key, d[key]), case)
+    if d.get("eint", "0") != "0":
+        # LY_EINT / "Internal error" messages are counted, not judged (lyd_new_any() reports unparsable anydata text that way)
+        cx.dist["life:note:internal-error-logged"] += 1
     if d.get("lost", "0") != "0":
         # recorded, not a C17 law: an instance that its own sibling lookup does not find (C04 territory)
         cx.dist["life:note:lookup-miss"] += 1
@@ -1857,16 +1907,38 @@ def _bucket(n):
     return ">48"
 
 
+def _summary(err):
+    for l in err.split("\n"):
+        if "VERIF ERROR" in l:
+            return l.strip()[:300]
+    for l in err.split("\n"):
+        if "ERROR: AddressSanitizer" in l or "runtime error:" in l or "ERROR: LeakSanitizer" in l:
+            return l.strip()[:300]
+    tail = [l for l in err.strip().split("\n") if l.strip()]
+    return tail[-1][:300] if tail else ""
+
+
 def _run_parallel(cx, lines, workers):
-    """several harness processes; every history runs in its own forked child anyway, so the split does not change results"""
-    if workers <= 1 or len(lines) < 4 * workers:
-        return cx.run_impl(HARNESS, lines, component="life", env=ENV)
+    """Several harness processes side by side.  Every history runs in its own forked child anyway, so the split does not
+    change any result; crashes are reported afterwards in request order (same shape as Cx.run_impl reports them)."""
+    from vlib import proto
+    exe = cx.harness(HARNESS)     # build once, outside the threads
+    workers = max(1, min(workers, len(lines) // 8 or 1))
     chunks = [lines[i::workers] for i in range(workers)]
-    cx.harness(HARNESS)     # build once, outside the threads
-    out = {}
+    out, crashes = {}, []
     with concurrent.futures.ThreadPoolExecutor(workers) as ex:
-        for r in ex.map(lambda c: cx.run_impl(HARNESS, c, component="life", env=ENV), chunks):
+        for r, c in ex.map(lambda ch: proto.run_lines([exe], ch, timeout=3600, env=ENV), chunks):
             out.update(r)
+            crashes += c
+    order = {l.split()[0]: i for i, l in enumerate(lines)}
+    for c in sorted(crashes, key=lambda c: order.get(c.get("id"), len(order))):
+        err = c.get("stderr", "")
+        if c.get("at_exit"):
+            cx.fail("life", "harness exit status %s after the last request: %s" % (c.get("rc"), _summary(err)),
+                    {"line": None, "stderr": err[-1500:], "crash": True, "at_exit": True})
+        else:
+            cx.fail("life", "harness aborted (%s rc=%s): %s" % (c.get("kind"), c.get("rc"), _summary(err)),
+                    {"line": c.get("line"), "stderr": err[-1500:], "crash": True})
     return out
 
 
@@ -1923,24 +1995,27 @@ def run_life(cx, workers=None):
     rng = cx.sub_rng("life")
     texts, yins, schemas = load_schemas(cx)
     gen = HistGen(rng, schemas, texts, yins, cx.tier == "thorough")
-    workers = workers or int(os.environ.get("VERIF_LIFE_WORKERS", "3"))
+    workers = workers or int(os.environ.get("VERIF_LIFE_WORKERS", "4" if cx.tier == "thorough" else "3"))
     cx.rule("life: API histories of 4-40 operations (parse XML/JSON/LYB/operations, lyd_new_*, change, dup, merge, diff, validate, insert, unlink/free, find, print, "
-            "schema loads) on 6 tree slots over 3 built-in schema sets, arguments drawn per leaf type from pools of valid and invalid lexicals, documents built from "
-            "a generated instance tree and corrupted with probability 0.22, each history in a fresh context and a fresh process image; hand seeds (F19, F21, F60 "
-            "witnesses) and every op family on every schema set first; value changes of leaf-list instances / list keys (F19) and lyd_new_path(UPDATE) on any nodes "
-            "(F60) only in separate sub-streams (12% / 4% of the histories); non-trivial = distinct history whose reply reports at least one successful and one "
-            "failing library call")
+            "dictionary, schema loads good and bad) on 6 tree slots over 3 built-in schema sets; arguments drawn per leaf type from pools of valid and invalid "
+            "lexicals, documents built from a generated instance tree (repaired to validity when validated) and corrupted with probability 0.22; each history in a "
+            "fresh context and a fresh process image, laws evaluated per history (dictionary records/refcounts back at baseline, no warning at ly_ctx_destroy, "
+            "LeakSanitizer, failed schema load leaves the dictionary alone, NULL outputs on failure, node links); first the witnesses of the known findings and "
+            "every op family on every schema set; features with known defects only in separate sub-streams: value change of leaf-list instances / list keys (F19, "
+            "12%), lyd_new_path(UPDATE) on any nodes (F60, 3%), LYD_VALIDATE_MULTI_ERROR parses (F62, 3%), LY_CTX_LEAFREF_LINKING (F63, 2%), opaque nodes (12%, no "
+            "merge/diff), validated subtree parses (F68, 2%); non-trivial = distinct history whose reply reports at least one successful and one failing library call")
 
     hist = []       # (set, ctxopts, ops, kinds, stream)
-    for s in (seed_f19(), seed_f19_key(), seed_f21(), seed_f60(), seed_f61(), seed_f62(), seed_f63(), seed_f64(), seed_f65(), seed_f68(), seed_f70()):
+    for s in (seed_f19(), seed_f19_key(), seed_f21(), seed_f60(), seed_f61(), seed_f62(), seed_f63(), seed_f64(), seed_f65(), seed_f68(), seed_f70(), seed_f72(), seed_f72b(), seed_f73()):
         hist.append((s[0], s[1], s[2], ["seed"] * len(s[2]), "seed"))
     hist += exhaustive_small(gen)
-    n = int(os.environ.get("VERIF_LIFE_N", "0")) or cx.n(2200, 60000)
+    n = int(os.environ.get("VERIF_LIFE_N", "0")) or cx.n(2200, 30000)
     for i in range(n):
         x = rng.random()
         stream = "f19" if x < 0.12 else "f60" if x < 0.15 else "multierr" if x < 0.18 else "lrlink" if x < 0.20 else "opaq" if x < 0.32 else "subval" if x < 0.34 else "main"
         si, co, ops, kinds = gen.history(stream)
-        if cx.tier == "thorough" or rng.random() < 0.05:
+        # LeakSanitizer runs whenever the byte balance of the heap is off; on top of that it is forced for a sample
+        if rng.random() < (0.25 if cx.tier == "thorough" else 0.05):
             co |= FORCE_LSAN
         hist.append((si, co, ops, kinds, stream))
 
